@@ -672,7 +672,7 @@ def _run(ctx):
         kit.check_witnesses('TlvModelC08', WITNESSES, {'K': 1, 'Cap': 200, 'EditK': 0}, raw=SUBST)
     if 'B' in ctx.stages:
         cfg = kit.write_cfg('TlvModelVec_%s.cfg' % ctx.tier, constants=consts, init='Init', next_='Next')
-        NFAM = 14
+        NFAM = 15
 
         def emit(f):
             out = kit.scratch('c08-vec-%s-%d.json' % (ctx.tier, f))
